@@ -358,7 +358,8 @@ class Samples:
                 for key, value in _h5py.AttributeManager(self._hdf5_dataset).items()
             )
         elif self.filetype == "NPY":
-            details = self._numpy_attributes
+            # A copy: the entries are popped below while they are printed
+            details = dict(self._numpy_attributes)
         else:
             raise AttributeError(f"Unkown filetype `{self.filetype}`.")
 
